@@ -158,6 +158,8 @@ impl<T> CompactArena<T> {
     /// Caller must ensure id is valid and allocated
     pub unsafe fn get_unchecked(&self, id: NodeId) -> &T {
         let index = id as usize;
+        #[cfg(kentbeck_bplustree3_verif)]
+        self.verif_assert_allocated(index, "get_unchecked");
         self.storage.get_unchecked(index)
     }
 
@@ -167,6 +169,8 @@ impl<T> CompactArena<T> {
     /// Caller must ensure id is valid and allocated
     pub unsafe fn get_unchecked_mut(&mut self, id: NodeId) -> &mut T {
         let index = id as usize;
+        #[cfg(kentbeck_bplustree3_verif)]
+        self.verif_assert_allocated(index, "get_unchecked_mut");
         self.storage.get_unchecked_mut(index)
     }
 
@@ -287,6 +291,26 @@ impl<T> CompactArena<T> {
 impl<T> Default for CompactArena<T> {
     fn default() -> Self {
         Self::new()
+    }
+}
+
+/// Verification hooks (compiled only with `--cfg kentbeck_bplustree3_verif`).
+#[cfg(kentbeck_bplustree3_verif)]
+impl<T> CompactArena<T> {
+    /// Read-only view of the private fields: storage, allocation mask, free list.
+    pub fn verif_raw(&self) -> (&[T], &[bool], &[usize]) {
+        (&self.storage, &self.allocated_mask, &self.free_list)
+    }
+
+    /// Panics (prefix VERIF-HOOK) when the documented safety precondition of an
+    /// unchecked access is false: the slot must be inside storage and allocated.
+    #[inline]
+    pub fn verif_assert_allocated(&self, index: usize, site: &str) {
+        if !(index < self.storage.len()
+            && self.allocated_mask.get(index).copied().unwrap_or(false))
+        {
+            panic!("VERIF-HOOK {}: slot {} is not an allocated slot", site, index);
+        }
     }
 }
 
